@@ -678,8 +678,9 @@ def run(ctx) -> dict:
             '__subclasshook__/__instancecheck__ (re-derived from their bodies each run).',
         'not_decided':
             'The truth tables themselves (which result each type pair gives), existential '
-            'semantics of general comparisons over sequences, NaN handling and the tolerance '
-            'helpers: statements over values.',
+            'semantics of general comparisons over sequences, NaN handling, use of the implicit '
+            'timezone: statements over values. (The tolerance helper is decided in one respect: it '
+            'is reached for two xs:float operands only.)',
         'assumptions': ['single-inheritance approximation for disjointness of unrelated classes',
                         'isinstance semantics of ABC hooks: nominal subclass first, then hook'],
     }
